@@ -12,3 +12,11 @@ open OrxPar
 #print axioms C03_max_by_key
 #print axioms C03_select_seq
 #print axioms C03_reduce_all_schedules
+#print axioms C03_fold_all_schedules
+#print axioms C03_sum_all_schedules
+#print axioms C03_min_all_schedules
+#print axioms C03_max_all_schedules
+#print axioms C03_min_by_key_all_schedules
+#print axioms C03_max_by_key_all_schedules
+#print axioms finished_schedule_exists
+#print axioms C03_reduce_some_schedule
